@@ -8,12 +8,14 @@ EXTENDS Integers, Sequences, TLC, Json
 CONSTANTS Part, Depth, ChMaxes, LocalIdle, RemoteIdle
 
 SN(n) == CASE n = 1 -> "s1" [] n = 2 -> "s2" [] n = 3 -> "s3" [] n = 4 -> "s4" [] n = 5 -> "s5" [] n = 6 -> "s6" [] n = 7 -> "s7" [] n = 8 -> "s8" [] n = 9 -> "s9" [] n = 10 -> "s10" [] n = 11 -> "s11" [] OTHER -> "s12"
-Steps == {"AdvA", "AdvB", "AdvC", "AdvD", "PEmpty", "Begin"}
+\* AdvS: a short advance, so that two frames of the peer arrive closer together than any fraction of the time-out an implementation might coalesce
+Steps == {"AdvA", "AdvB", "AdvC", "AdvD", "AdvS", "PEmpty", "Begin"}
 VARIABLES z
 Init == z = [k |-> "start"]
 Next == /\ z.k = "start"
         /\ IF Part = "chan" THEN \E a \in ChMaxes, b \in ChMaxes : z' = [k |-> "chan", l |-> a, r |-> b]
            ELSE IF Part = "idleclose" THEN \E sq \in [1..Depth -> {"AdvA", "AdvC", "AdvD", "PEmpty"}] : z' = [k |-> "idleclose", sq |-> sq]
+           ELSE IF Part = "idlelate" THEN \E sq \in [1..Depth -> {"AdvA", "AdvB", "PEmpty", "Begin"}] : z' = [k |-> "idlelate", sq |-> sq]
            ELSE \E sq \in [1..Depth -> Steps] : z' = [k |-> "idle", sq |-> sq]
 Spec == Init /\ [][Next]_z
 
@@ -30,13 +32,16 @@ Chan(l, r) == LET n == Min(Min(l, r), 8) + 3 IN
   Open(l, r, 0, 0) \o Begs(1, n) \o << [e |-> "AEnd", s |-> SN(1)], [e |-> "PFrame", perf |-> "end", ch |-> 11, f |-> [err |-> ""]] >> \o Begs(n + 1, n + 2)
 \* time-outs of 200 ms: advances just below, at, above, and far above
 Adv(ms) == [e |-> "Advance", ms |-> ms, step |-> 10]
-Conc(st, i) == CASE st = "AdvA" -> <<Adv(150)>> [] st = "AdvB" -> <<Adv(190)>> [] st = "AdvC" -> <<Adv(230)>> [] st = "AdvD" -> <<Adv(650)>>
+Conc(st, i) == CASE st = "AdvA" -> <<Adv(150)>> [] st = "AdvB" -> <<Adv(190)>> [] st = "AdvC" -> <<Adv(230)>> [] st = "AdvD" -> <<Adv(650)>> [] st = "AdvS" -> <<Adv(30)>>
                  [] st = "PEmpty" -> <<[e |-> "PEmpty", ch |-> 0]>> [] OTHER -> Beg(i)
 RECURSIVE Body(_, _)
 Body(sq, i) == IF i > Len(sq) THEN <<>> ELSE Conc(sq[i], i) \o Body(sq, i + 1)
 Idle(sq) == Open(10, 10, LocalIdle, RemoteIdle) \o <<[e |-> "AOnClose"]>> \o Body(sq, 1) \o <<Adv(50)>>
+\* the peer answers the open late (120 ms): the time-out it advertises counts from the endpoint's own last frame, its open
+IdleLate(sq) == << [e |-> "AOpen", cfg |-> [mfs |-> 4096, chmax |-> 10, idle |-> LocalIdle]], [e |-> "PHeader", kind |-> "amqp"], Adv(120),
+                   [e |-> "PFrame", perf |-> "open", ch |-> 0, f |-> [mfs |-> 4096, chmax |-> 10, idle |-> RemoteIdle]], [e |-> "AOnClose"] >> \o Body(sq, 1) \o <<Adv(250)>>
 \* the application closes and the peer lets several of its idle periods pass before it answers: nothing more is sent, heartbeats included
 IdleClose(sq) == Open(10, 10, LocalIdle, RemoteIdle) \o <<[e |-> "AClose", err |-> ""]>> \o Body(sq, 1) \o <<[e |-> "PFrame", perf |-> "close", ch |-> 0, f |-> [err |-> ""]]>>
 Emit == z.k = "start" \/ PrintT(<<"SCRIPT", ToJson([side |-> "client", id |-> z, final_ms |-> 1000,
-                                                     ev |-> IF z.k = "chan" THEN Chan(z.l, z.r) ELSE IF z.k = "idleclose" THEN IdleClose(z.sq) ELSE Idle(z.sq)])>>)
+                                                     ev |-> IF z.k = "chan" THEN Chan(z.l, z.r) ELSE IF z.k = "idleclose" THEN IdleClose(z.sq) ELSE IF z.k = "idlelate" THEN IdleLate(z.sq) ELSE Idle(z.sq)])>>)
 =============================================================================
